@@ -129,6 +129,7 @@ def work_chunk(prop, tier, seed, runs, want_digests=False, sweep=True):
     samples = []
     evaluations = 0
     steps = 0
+    pending = []
     t0 = time.time()
     for r in runs:
         rng = run_rng(seed, prop, tier, r)
@@ -143,6 +144,8 @@ def work_chunk(prop, tier, seed, runs, want_digests=False, sweep=True):
         states |= res.states
         if want_digests:
             digests[r] = res.digest
+        if getattr(res, "pickles", None):
+            pending.append((r, cfg, res.ops, res.pickles))
         if len(samples) < 2 and res.ops:
             samples.append({"run": r, "cfg": m.brief_cfg(cfg), "ops": res.ops[:12], "violation": None})
         if res.violation is not None:
@@ -164,6 +167,10 @@ def work_chunk(prop, tier, seed, runs, want_digests=False, sweep=True):
                         {"run": r, "cfg": cfg2, "ops": ops2, "violation": res2.violation.as_dict(), "sweep": True}
                     )
                     break
+    if pending and hasattr(m, "post_chunk"):
+        more, pstats = m.post_chunk(pending, tier)
+        merge_stats(stats, pstats)
+        violations.extend(more[: max(0, 3 - len(violations))])
     return {
         "stats": stats,
         "sigs": sigs,
@@ -545,6 +552,11 @@ def main(argv):
     try:
         if args.what == "replay" or args.replay:
             return replay_file(args.replay or args.path)
+        if args.what == "restore-batch":
+            boot.setup(0)
+            from . import snap
+
+            return snap.restore_batch_child()
         if args.what.startswith("selftest"):
             from . import selftest
 
